@@ -208,6 +208,10 @@ func (k Keeper) ForceValidatorUnstake(ctx sdk.Ctx, validator types.Validator) sd
 	k.BeforeValidatorUnstaked(ctx, validator.GetAddress())
 	// delete the validator from staking set as they are unstaked
 	k.deleteValidatorFromStakingSet(ctx, validator)
+	// a validator that was already unstaking leaves the unstaking queue as well
+	if validator.IsUnstaking() {
+		k.deleteUnstakingValidator(ctx, validator)
+	}
 	// amount unstaked = stakedTokens (nothing to burn if a slash already took everything)
 	if validator.StakedTokens.IsPositive() {
 		err := k.burnStakedTokens(ctx, validator.StakedTokens)
